@@ -225,7 +225,21 @@ func c08ConcRound(c *ev.Ctx, r *ev.Rand, round int) {
 				case op < 7: // renameat
 					f, x := pickDir()
 					f2, x2 := pickDir()
-					q.t, q.vals = wire.Trenameat, []any{u(f), nameIn(x), u(f2), nameIn(x2)}
+					n1, n2 := nameIn(x), nameIn(x2)
+					if r.Intn(4) == 0 {
+						// an entry renamed onto itself, if possible through two
+						// fids on one directory: nothing changes, nothing is fenced
+						for _, o := range dirs {
+							if o != f && cn.fids[o].obj == x.obj {
+								f2 = o
+							}
+						}
+						if cn.fids[f2].obj != x.obj {
+							f2 = f
+						}
+						n2 = n1
+					}
+					q.t, q.vals = wire.Trenameat, []any{u(f), n1, u(f2), n2}
 				case op == 7: // unlinkat
 					f, x := pickDir()
 					q.t, q.vals = wire.Tunlinkat, []any{u(f), nameIn(x), u(0)}
